@@ -12,7 +12,8 @@ META = {
                    "removes the queued senders that depended on it (so they resolve with an error instead of staying pending) and keeps the dialling ones; (P12/P13) a pure waiter "
                    "whose channel closes gets Ready(Err(Unavailable)), never Pending; every connector result marks the checkout Connected before returning (C03.1); "
                    "(P14) an abandoned attempt is continued and its drop releases the marker later; (P16) no re-entrant pool lock, lock-taking drop or await inside a lock region."
-                   " P12 (Waiting::poll) and P13 (Checkout::poll) are decision tables: the expanded unit is evaluated abstractly for every (state, waiter outcome, connector outcome) and the answer plus the effects (connector polled, waiter closed, state set to Connected, connection registered, receiver given up) are compared with the typestate the pool relies on.",
+                   " P12 (Waiting::poll) and P13 (Checkout::poll) are decision tables: the expanded unit is evaluated abstractly for every (state, waiter outcome, connector outcome) and the answer plus the effects (connector polled, waiter closed, state set to Connected, connection registered, receiver given up) are compared with the typestate the pool relies on."
+                   " As built now: the pool's state machine pieces are decision tables evaluated abstractly on modelled pool states (pooltable.py): P8 Pool::checkout (idle hit / in-flight attempt / dial x multiplexing x continue-after-preemption, with Checkout::new spliced in), P9 PoolInner::push (waiter queues with live / closed / racing receivers, shareable / exclusive connection, idle bound), P11 cancel_connection (exactly the dependants are released), P10 / P14 / P15 the pinned drop of Checkout (attempt state x waiter state x undelivered connection x pool alive: continue XOR cancel, a pure waiter does nothing, the delayed checkout keeps connector, token and pool). The representation of a queued waiter is read off Pool::checkout itself.",
     "trusted_base": ["rustc type/borrow checker", "tokio oneshot wakes the receiver on send/drop of the sender", "parking_lot::Mutex is not re-entrant (hence P16)"],
     "assumptions": ["each dial terminates (the property assumes it)", "runtime fairness"],
     "undecided": "termination of dials; fairness of the runtime; wake-ups inside tokio's oneshot",
